@@ -2021,6 +2021,10 @@ class Type_Param_Def_Stmt(StmtBase):  # R435
         if not l1 or not l2:
             return
         if kind_selector:
+            if len(kind_selector) <= 1:
+                # Kind_Selector requires at least two characters ('*n' or
+                # '(n)' are the shortest valid forms).
+                return
             kind_selector = Kind_Selector(kind_selector)
         return kind_selector, Type_Param_Attr_Spec(l1), Type_Param_Decl_List(l2)
 
